@@ -358,7 +358,7 @@ def run(ctx):
     # panic inventory of the helpers
     for name, (ob, rb) in hb.items():
         for ln, what, x in c06.panic_sites(rb):
-            ok = name == "path_param" and (what == "Option::expect" or what == "Index::index")
+            ok = name == "path_param" and (what in ("Option::expect", "Option::unwrap", "Index::index") or what.startswith("core::panicking::panic"))
             ctx.check(ok, "R19.6", rb.loc(ln), f"{name}|panic|{what}", f"{name}: possible panic site `{what}`",
                       instance=f"{name}: {what} allow-listed (documented caller contract: the router must install the PathParams extension with every template variable)", nontrivial=False)
     # R19.3 template provenance (E3)
